@@ -325,7 +325,7 @@ func c11Judge(c *Ctx, e *c11Env, cs c11Case, what string, in, real *profile.Prof
 			c.Violation("C11/"+what+"/not-a-root-side-suffix", what+" did more than remove leaf-side locations/lines: "+msg, cs)
 		}
 	}
-	// theorem prune_frames_only_removed on the real code: frames after are a subsequence of frames before
+	// theorems prune_frames_only_removed, pruneFrom_frames_only_removed on the real code: frames after are a subsequence of frames before
 	if !oracleFailed {
 		for i := range realV {
 			_, fb := viewFrames(inViews[i])
